@@ -12,6 +12,7 @@ params (all JSON-able; the codes are those of spec/MapLawsObs.tla):
   early     f_ form, timing 1: start comp1 *before* the chain is built (completion races the construction)
   cancel    None | ticks: thread can1 cancels the chain's output at that virtual time
   compose   also run the case as ONE stage with the composed function (run 1), see C13_Compose
+  fn_shape  None | "partial" | "object": the user functions are functools.partial objects / instances with __call__
   in_except the futures of the case are completed, and the f_ chain is built, from inside the `except` block of an
             unrelated exception (the propagated exception object and its traceback must not pick anything up from it)
 
@@ -227,6 +228,16 @@ class Run(object):
             return run.future_for(beh, tag_in, id_in, x)
 
         fn.__name__ = "%s%d" % ("efn" if which else "fn", stage)
+        shape = self.p.get("fn_shape")
+        if shape == "partial":
+            # the user's function is a functools.partial (no __name__ / __qualname__): a callable like any other
+            import functools
+            return functools.partial(lambda _pad, x: fn(x), "pad")
+        if shape == "object":
+            class Callable(object):       # an instance with __call__
+                def __call__(self, x):
+                    return fn(x)
+            return Callable()
         return fn
 
     # ---- the input
